@@ -11,6 +11,12 @@ THEOREMS = ["EngineModel.Properties.C02." + t for t in [
     "C02_v2_cues_decode_agrees", "C02_v2_loops_decode_agrees",
     "C02_v2_track_encode_agrees", "C02_v2_beat_encode_agrees", "C02_v2_ovw_encode_agrees",
     "C02_v2_cues_encode_agrees", "C02_v2_loops_encode_agrees",
+    "C02_v1_track_decode_agrees", "C02_v1_ovw_decode_agrees", "C02_v1_hires_decode_agrees",
+    "C02_v1_cues_decode_agrees", "C02_v1_loops_decode_agrees", "C02_v1_beat_decode_agrees_of_spec",
+    "C02_v1_beat_decode_agrees_partial", "C02_v1_beat_decode_agrees_counterexample", "C02_v1_track_encode_agrees",
+    "C02_v1_ovw_encode_agrees", "C02_v1_hires_encode_agrees", "C02_v1_loops_encode_agrees",
+    "C02_v1_cues_encode_agrees", "C02_v1_beat_encode_agrees",
+    "C02_inflate_stored", "C02_unframe_frame",
 ]]
 ASSUMPTIONS = [
     "the Spec layouts (lean/EngineModel/Format/V2.lean, V1.lean) and the Lean inflate (Zlib/Inflate.lean, RFC 1950/1951) "
